@@ -83,7 +83,7 @@ func init() {
 
 const rule = "PRNG cases (seed+tier determine the list), case i runs on configuration i%4 {mem-off, mem-tiny, mem-one, mem-large} with slow or fast memory TTL: " +
 	"one fresh blob (0 B - 64 KiB, sizes around piece-length multiples) and a script of 1-3 writes over 8 write paths x 8 stream kinds " +
-	"(patterns: mismatch only; mismatch then exact; exact then mismatch; exact; mismatch || exact concurrently; two mismatches) with steps {observe, drain1, drainAll, tick, ttl} between and after the writes. " +
+	"(patterns: mismatch only; mismatch then exact; exact then mismatch; exact; mismatch || exact concurrently; two mismatches; ~10%: patch-race = chunked upload over HTTP whose last PATCH body is still streaming when the commit is issued, PRNG offsets/lengths/endpoint and order of completion {after-commit, before-commit, abort-after-commit, concurrent}; on memory configurations ~9% each: mem-then-disk = exact blob through the memory path, then a differing stream through a disk path before the drain, then drain; slow-reader = store/piece readers opened while memory resident, partly read, held across the drain and 1-4 later memory-path writes of similar-sized blobs) with steps {observe, drain1, drainAll, tick, ttl} between and after the writes. " +
 	"non-trivial = the case contains >=1 write whose stream differs from the blob and made >=3 observations; distinct = distinct (config, blob size, script)."
 
 // ---------------------------------------------------------------------------
@@ -373,7 +373,46 @@ type caseSpec struct {
 	Pattern  string      `json:"pattern"`
 	Writes   []writeSpec `json:"writes"`
 	Steps    [][]string  `json:"steps"` // Steps[k] run after write k (for "pair": after both)
+	Race     *raceSpec   `json:"race,omitempty"`
+	Seq      *seqSpec    `json:"seq,omitempty"`
 	blobSeed int64
+}
+
+// raceSpec: a chunk PATCH whose body is still streaming while the upload is
+// committed. The exact bytes are uploaded except for the hole [Off,Split); the
+// slow PATCH covers [Off,Off+K): its first Split-Off bytes are the blob's own
+// (so the upload file hashes to d once they arrived), the remaining bytes
+// differ from the blob (overwriting good bytes and/or extending the file).
+// seqSpec parameterises the two memory-residency patterns.
+//
+// "mem-then-disk": the exact blob is written through the memory write-through
+// path; while d is still waiting for its drain a differing stream is committed
+// under d through a disk path (an upload that was started and filled before d
+// existed, CreateCacheFile, WriteCacheFile, the disk fallback of
+// WriteBlobToCacheWithMetaInfo); then the drain runs.
+//
+// "slow-reader": readers for d are opened while d is memory resident and
+// consumed only partly; d is drained; other blobs of similar size go through
+// the memory path; then the readers are consumed to the end.
+type seqSpec struct {
+	MemPath  string `json:"mem_path"`
+	DiskPath string `json:"disk_path,omitempty"`
+	Kind     string `json:"kind,omitempty"`
+	Arg      int64  `json:"arg"`
+	Chunk    int    `json:"chunk"`
+	Drain    string `json:"drain"`              // drainAll | ticks | ttl
+	Others   int    `json:"others,omitempty"`   // slow-reader: number of other blobs written after the drain
+	ReadFrac int    `json:"read_pct,omitempty"` // slow-reader: percent consumed before the drain
+}
+
+type raceSpec struct {
+	Endpoint    string `json:"endpoint"` // transfer | upload
+	Off         int    `json:"off"`
+	Split       int    `json:"split"`
+	K           int    `json:"k"`
+	Mode        string `json:"mode"` // after-commit | before-commit | abort-after-commit | concurrent
+	ExactChunks int    `json:"exact_chunks"`
+	Arg         int64  `json:"arg"`
 }
 
 type event struct {
@@ -390,6 +429,7 @@ type caseState struct {
 
 	matchingStarted atomic.Bool // a write of the exact blob has been called
 	memMismatch     atomic.Bool // a differing stream was handed to the memory write-through buffer
+	lateWriter      atomic.Bool // a PATCH body was fed to the server after the upload's commit had been issued
 	observations    atomic.Int64
 	visibleOK       atomic.Int64
 
@@ -454,8 +494,62 @@ func genCase(r *rand.Rand, spec cfgSpec, fastTTL bool, slot int) *caseSpec {
 	if c.PL == 1 && c.BlobSize > 2048 {
 		c.BlobSize = 1 + r.Intn(2048) // keep piece counts sane
 	}
-	p := r.Intn(100)
+	p := r.Intn(136)
+	if p >= 112 && !spec.Mem {
+		p = 100 // the memory-residency patterns need the memory cache
+	}
 	switch {
+	case p >= 112:
+		// the blob must fit the memory cache of this configuration
+		switch spec.Name {
+		case "mem-tiny":
+			c.BlobSize = 8 + r.Intn(int(spec.MaxSize)-8)
+		case "mem-one":
+			c.BlobSize = 64 + r.Intn(9000)
+		default:
+			if c.BlobSize < 8 {
+				c.BlobSize = 8 + r.Intn(20000)
+			}
+		}
+		sq := &seqSpec{MemPath: []string{"write-blob-meta", "refresher"}[r.Intn(2)], Arg: r.Int63(), Chunk: []int{0, 13, 512, 4096}[r.Intn(4)],
+			Drain: []string{"drainAll", "drainAll", "ticks", "ttl"}[r.Intn(4)]}
+		if p < 124 {
+			c.Pattern = "mem-then-disk"
+			sq.DiskPath = []string{"upload-api-prestarted", "http-transfer-prestarted", "http-upload-prestarted", "create-cache-file", "write-cache-file", "write-blob-meta"}[r.Intn(6)]
+			sq.Kind = mismatchKinds[r.Intn(len(mismatchKinds))]
+		} else {
+			c.Pattern = "slow-reader"
+			sq.Others = 1 + r.Intn(4)
+			sq.ReadFrac = 1 + r.Intn(90)
+		}
+		c.Seq = sq
+		after := []string{"obs", "obs-http", "tick", "obs"}
+		c.Steps = [][]string{after[:1+r.Intn(len(after))]}
+		return c
+	case p >= 100:
+		c.Pattern = "patch-race"
+		if c.BlobSize < 8 {
+			c.BlobSize = 8 + r.Intn(4000)
+		}
+		rs := &raceSpec{Endpoint: []string{"transfer", "upload"}[r.Intn(2)], ExactChunks: 1 + r.Intn(3), Arg: r.Int63(),
+			Mode: []string{"after-commit", "after-commit", "before-commit", "abort-after-commit", "concurrent"}[r.Intn(5)]}
+		rs.Off = r.Intn(c.BlobSize - 4)
+		if r.Intn(4) == 0 {
+			rs.Off = c.BlobSize - 4 - r.Intn(min(4, c.BlobSize-7)) // near the end
+		}
+		rs.Split = rs.Off + 4 + r.Intn(min(c.BlobSize-rs.Off-4, 512)+1)
+		if rs.Split > c.BlobSize {
+			rs.Split = c.BlobSize
+		}
+		tail := 1 + r.Intn(600)
+		if r.Intn(3) == 0 {
+			tail = c.BlobSize - rs.Split + 1 + r.Intn(200) // runs past the end of the blob
+		}
+		rs.K = rs.Split - rs.Off + tail
+		c.Race = rs
+		after := []string{"obs", "drain1", "obs", "tick", "obs-http", "drainAll", "obs"}
+		c.Steps = [][]string{after[:1+r.Intn(len(after))]}
+		return c
 	case p < 35:
 		c.Pattern = "mismatch"
 	case p < 50:
@@ -879,6 +973,384 @@ func (w *world) httpUpload(cs *caseState, stream []byte, ws writeSpec, base stri
 	return nil, false
 }
 
+func (w *world) httpDo(method, url string, body []byte, hdr map[string]string) (int, string) {
+	req, err := http.NewRequest(method, url, bytes.NewReader(body))
+	if err != nil {
+		return -1, ""
+	}
+	for k, v := range hdr {
+		req.Header.Set(k, v)
+	}
+	resp, err := http.DefaultClient.Do(req)
+	if err != nil {
+		return -1, ""
+	}
+	io.Copy(io.Discard, resp.Body)
+	resp.Body.Close()
+	return resp.StatusCode, resp.Header.Get("Location")
+}
+
+// drainAs drains d the way the spec says: on demand, through worker ticks, or
+// after letting the TTL worker look first. false = watchdog.
+func (w *world) drainAs(cs *caseState, how string) bool {
+	switch how {
+	case "ticks":
+		for i := 0; i < 8 && w.cas.VerifC01InMemCache(cs.hex); i++ {
+			w.advance(100*time.Millisecond + time.Millisecond)
+		}
+	case "ttl":
+		if w.fastTTL {
+			for h := 0; h < 3; h++ {
+				w.advance(31 * time.Millisecond)
+			}
+		} else {
+			w.advance(w.ttl + 500*time.Millisecond)
+		}
+	}
+	cs.note("step", "drain:"+how)
+	return w.drainAll(cs.hex)
+}
+
+// memThenDisk: see seqSpec.
+func (w *world) memThenDisk(cs *caseState) bool {
+	sq := cs.spec.Seq
+	ws := writeSpec{Path: sq.DiskPath, Kind: sq.Kind, Arg: sq.Arg, Chunk: sq.Chunk}
+	stream := mkStream(cs.blob, ws)
+	w.run.Count("mem_then_disk_"+sq.DiskPath, 1)
+	// uploads that are started and filled before d exists anywhere
+	var base, uid string
+	switch sq.DiskPath {
+	case "http-transfer-prestarted", "http-upload-prestarted":
+		base = fmt.Sprintf("http://%s/internal/blobs/%s/uploads", w.addr, cs.d)
+		if sq.DiskPath == "http-upload-prestarted" {
+			base = fmt.Sprintf("http://%s/namespace/%s/blobs/%s/uploads", w.addr, nsScripted, cs.d)
+		}
+		st, loc := w.httpDo("POST", base, nil, nil)
+		if st != http.StatusOK || loc == "" {
+			return true
+		}
+		uid = loc
+		if len(stream) > 0 {
+			if st, _ := w.httpDo("PATCH", base+"/"+uid, stream, map[string]string{"Content-Range": fmt.Sprintf("0-%d", len(stream))}); st != http.StatusOK {
+				return true
+			}
+		}
+	case "upload-api-prestarted":
+		uid = fmt.Sprintf("pre-%s-%d", cs.hex[:12], sq.Arg)
+		if err := w.cas.CreateUploadFile(uid, 0); err != nil {
+			return true
+		}
+		f, err := w.cas.GetUploadFileReadWriter(uid)
+		if err != nil {
+			return true
+		}
+		err = writeChunks(f, stream, sq.Chunk)
+		f.Close()
+		if err != nil {
+			return true
+		}
+	}
+	// the exact blob through the memory write-through path
+	res := w.doWrite(cs, writeSpec{Path: sq.MemPath, Kind: "exact", Arg: sq.Arg + 7, Chunk: sq.Chunk})
+	if res.err == errWatchdog {
+		return false
+	}
+	if w.cas.VerifC01InMemCache(cs.hex) {
+		w.run.Count("mem_then_disk_exact_blob_memory_resident", 1)
+	}
+	w.observeAll(cs, false)
+	// the differing stream through a disk path, while d waits for its drain
+	accepted := false
+	switch sq.DiskPath {
+	case "http-transfer-prestarted", "http-upload-prestarted":
+		st, _ := w.httpDo("PUT", base+"/"+uid, nil, nil)
+		accepted = st == http.StatusOK
+		cs.note("write-return", fmt.Sprintf("%s/%s commit -> %d", sq.DiskPath, sq.Kind, st))
+	case "upload-api-prestarted":
+		err := w.cas.MoveUploadFileToCache(uid, cs.hex)
+		accepted = err == nil
+		cs.note("write-return", fmt.Sprintf("%s/%s -> %v", sq.DiskPath, sq.Kind, err))
+	default:
+		r2 := w.doWrite(cs, ws)
+		if r2.err == errWatchdog {
+			return false
+		}
+		accepted = r2.err == nil
+	}
+	if accepted {
+		// tolerated as such (d exists: "already there" short-cuts are legal);
+		// what is served under d afterwards decides
+		w.run.Count("mem_then_disk_differing_stream_reported_success", 1)
+	}
+	w.observeAll(cs, false)
+	if !w.drainAs(cs, sq.Drain) {
+		return false
+	}
+	w.observeAll(cs, true)
+	return true
+}
+
+// slowReader: see seqSpec.
+func (w *world) slowReader(cs *caseState) bool {
+	sq := cs.spec.Seq
+	r := rand.New(rand.NewSource(sq.Arg))
+	res := w.doWrite(cs, writeSpec{Path: sq.MemPath, Kind: "exact", Arg: sq.Arg + 7, Chunk: sq.Chunk})
+	if res.err == errWatchdog {
+		return false
+	}
+	resident := w.cas.VerifC01InMemCache(cs.hex)
+	if resident {
+		w.run.Count("slow_reader_opened_while_memory_resident", 1)
+	}
+	type held struct {
+		api  string
+		rd   io.ReadCloser
+		want []byte
+		got  []byte
+	}
+	var hs []*held
+	if f, err := w.cas.GetCacheFileReader(cs.hex); err == nil {
+		hs = append(hs, &held{api: "store-reader-slow", rd: f, want: cs.blob})
+	}
+	if t, err := w.archive.GetTorrent(nsObserve, cs.d); err == nil && t.NumPieces() > 0 && t.Length() == int64(len(cs.blob)) {
+		i := r.Intn(t.NumPieces())
+		if pr, err := t.GetPieceReader(i); err == nil {
+			lo := int64(i) * t.MaxPieceLength()
+			hs = append(hs, &held{api: "piece-reader-slow", rd: pr, want: cs.blob[lo : lo+t.PieceLength(i)]})
+		}
+	}
+	// consume a part (at least one byte, so lazy readers have opened their file)
+	for _, h := range hs {
+		n := len(h.want) * sq.ReadFrac / 100
+		if n < 1 {
+			n = 1
+		}
+		if n > len(h.want) {
+			n = len(h.want)
+		}
+		buf := make([]byte, n)
+		m, _ := io.ReadFull(h.rd, buf)
+		h.got = append(h.got, buf[:m]...)
+	}
+	cs.note("step", fmt.Sprintf("%d readers opened (memory resident: %v) and read %d%%", len(hs), resident, sq.ReadFrac))
+	if !w.drainAs(cs, sq.Drain) {
+		return false
+	}
+	// other blobs of similar size through the memory path
+	var others []string
+	for k := 0; k < sq.Others; k++ {
+		n := len(cs.blob)/2 + 1 + r.Intn(len(cs.blob)-len(cs.blob)/2)
+		if n > len(cs.blob) {
+			n = len(cs.blob)
+		}
+		if k == 0 {
+			n = len(cs.blob)
+		}
+		ob := gen.Bytes(r, n)
+		name := sha(ob)
+		err := w.cas.WriteBlobToCacheWithMetaInfo(name, uint64(n), func(f store.FileReadWriter) error {
+			return writeChunks(f, ob, sq.Chunk)
+		}, cs.spec.PL)
+		if err == nil && w.cas.VerifC01InMemCache(name) {
+			w.run.Count("slow_reader_other_blob_written_through_memory", 1)
+		}
+		others = append(others, name)
+	}
+	cs.note("step", fmt.Sprintf("%d other blobs of similar size written", len(others)))
+	for _, h := range hs {
+		rest, rerr := io.ReadAll(h.rd)
+		h.rd.Close()
+		h.got = append(h.got, rest...)
+		cs.observations.Add(1)
+		w.run.Count("obs_"+h.api, 1)
+		if rerr != nil {
+			w.run.Count("obs_read_error", 1)
+			continue
+		}
+		if !bytes.Equal(h.got, h.want) {
+			diff := 0
+			for diff < len(h.got) && diff < len(h.want) && h.got[diff] == h.want[diff] {
+				diff++
+			}
+			cs.note("observed-mismatch", fmt.Sprintf("%s: %d bytes, first difference at %d", h.api, len(h.got), diff))
+			w.run.Count("observed_mismatching_content", 1)
+			w.run.Violation("mismatching-content-visible/"+h.api+"/held-across-drain", cs.id,
+				cs.witness(map[string]interface{}{"api": h.api, "bytes": len(h.got), "want": len(h.want), "first_difference": diff, "sha256_seen": sha(h.got)}))
+		} else {
+			cs.visibleOK.Add(1)
+		}
+	}
+	for _, name := range others {
+		w.drainAll(name)
+		w.purge(name)
+	}
+	w.observeAll(cs, true)
+	return true
+}
+
+// patchRace drives the chunked-upload protocol with a PATCH whose body is fed
+// through a pipe, so that the commit can be issued while that PATCH is still
+// streaming. Returns false on a harness watchdog.
+func (w *world) patchRace(cs *caseState) bool {
+	rs := cs.spec.Race
+	base := fmt.Sprintf("http://%s/internal/blobs/%s/uploads", w.addr, cs.d)
+	if rs.Endpoint == "upload" {
+		base = fmt.Sprintf("http://%s/namespace/%s/blobs/%s/uploads", w.addr, nsScripted, cs.d)
+	}
+	path := "patch-race-" + rs.Endpoint
+	w.run.Count("write_"+path, 1)
+	w.run.Count("patch_race_mode_"+rs.Mode, 1)
+	do := func(method, url string, body []byte, hdr map[string]string) (int, string) {
+		req, err := http.NewRequest(method, url, bytes.NewReader(body))
+		if err != nil {
+			return -1, ""
+		}
+		for k, v := range hdr {
+			req.Header.Set(k, v)
+		}
+		resp, err := http.DefaultClient.Do(req)
+		if err != nil {
+			return -1, ""
+		}
+		io.Copy(io.Discard, resp.Body)
+		resp.Body.Close()
+		return resp.StatusCode, resp.Header.Get("Location")
+	}
+	st, uid := do("POST", base, nil, nil)
+	if st != http.StatusOK || uid == "" {
+		cs.note("patch-race", fmt.Sprintf("start -> %d", st))
+		return true
+	}
+	blob := cs.blob
+	// the exact bytes, except the hole [Off,Split)
+	put := func(lo, hi int) bool {
+		n := rs.ExactChunks
+		for c := 0; c < n; c++ {
+			a, b := lo+(hi-lo)*c/n, lo+(hi-lo)*(c+1)/n
+			if b == a {
+				continue
+			}
+			if st, _ := do("PATCH", base+"/"+uid, blob[a:b], map[string]string{"Content-Range": fmt.Sprintf("%d-%d", a, b)}); st != http.StatusOK {
+				cs.note("patch-race", fmt.Sprintf("exact patch %d-%d -> %d", a, b, st))
+				return false
+			}
+		}
+		return true
+	}
+	if !put(0, rs.Off) || !put(rs.Split, len(blob)) {
+		return true
+	}
+	// the slow PATCH
+	r := rand.New(rand.NewSource(rs.Arg))
+	head := blob[rs.Off:rs.Split]
+	tail := gen.Bytes(r, rs.K-len(head))
+	if rs.Split < len(blob) && tail[0] == blob[rs.Split] {
+		tail[0] ^= 0x5a
+	}
+	pr, pw := io.Pipe()
+	req, _ := http.NewRequest("PATCH", base+"/"+uid, pr)
+	req.ContentLength = int64(rs.K)
+	req.Header.Set("Content-Range", fmt.Sprintf("%d-%d", rs.Off, rs.Off+rs.K))
+	patchDone := make(chan int, 1)
+	go func() {
+		resp, err := http.DefaultClient.Do(req)
+		if err != nil {
+			patchDone <- -1
+			return
+		}
+		io.Copy(io.Discard, resp.Body)
+		resp.Body.Close()
+		patchDone <- resp.StatusCode
+	}()
+	if _, err := pw.Write(head); err != nil {
+		pw.CloseWithError(err)
+		<-patchDone
+		return true
+	}
+	// wait until the server has written the head through its open handle
+	synced := false
+	for dl := time.Now().Add(20 * time.Second); time.Now().Before(dl); {
+		if f, err := w.cas.GetUploadFileReader(uid); err == nil {
+			buf := make([]byte, len(head))
+			n, _ := f.ReadAt(buf, int64(rs.Off))
+			f.Close()
+			if n == len(head) && bytes.Equal(buf, head) {
+				synced = true
+				break
+			}
+		}
+		time.Sleep(200 * time.Microsecond)
+	}
+	if !synced {
+		pw.CloseWithError(errWatchdog)
+		<-patchDone
+		w.run.Count("patch_race_sync_timeout", 1)
+		return false
+	}
+	cs.note("patch-race", fmt.Sprintf("%s: hole [%d,%d) filled by the slow PATCH [%d,%d), handle open; mode %s", rs.Endpoint, rs.Off, rs.Split, rs.Off, rs.Off+rs.K, rs.Mode))
+	commitDone := make(chan int, 1)
+	commit := func() {
+		cs.matchingStarted.Store(true) // the upload file holds exactly the blob now
+		go func() {
+			st, _ := do("PUT", base+"/"+uid, nil, nil)
+			commitDone <- st
+		}()
+	}
+	// bounded wait: a server that makes the commit wait for the open writer
+	// is fine, the harness then simply finishes the body first
+	waitCommit := func(d time.Duration) (int, bool) {
+		select {
+		case st := <-commitDone:
+			return st, true
+		case <-time.After(d):
+			return 0, false
+		}
+	}
+	commitStatus, haveCommit := 0, false
+	patchStatus := 0
+	switch rs.Mode {
+	case "after-commit", "abort-after-commit":
+		commit()
+		commitStatus, haveCommit = waitCommit(500 * time.Millisecond)
+		cs.lateWriter.Store(true)
+		if rs.Mode == "after-commit" {
+			_, _ = pw.Write(tail)
+			pw.Close()
+		} else {
+			pw.CloseWithError(errors.New("client aborted the chunk"))
+		}
+		patchStatus = <-patchDone
+	case "before-commit":
+		_, _ = pw.Write(tail)
+		pw.Close()
+		patchStatus = <-patchDone
+		commit()
+	case "concurrent":
+		commit()
+		cs.lateWriter.Store(true)
+		_, _ = pw.Write(tail)
+		pw.Close()
+		patchStatus = <-patchDone
+	}
+	if !haveCommit {
+		var ok bool
+		if commitStatus, ok = waitCommit(30 * time.Second); !ok {
+			return false
+		}
+	}
+	cs.note("patch-race", fmt.Sprintf("commit -> %d, slow patch -> %d", commitStatus, patchStatus))
+	w.run.Count(fmt.Sprintf("patch_race_commit_%d", commitStatus), 1)
+	if rs.Mode == "before-commit" && patchStatus == http.StatusOK && commitStatus == http.StatusOK {
+		// the differing tail was acknowledged before the commit was sent
+		w.run.Violation("mismatching-write-accepted/"+path+"/via-disk", cs.id, cs.witness(map[string]interface{}{"race": rs}))
+	}
+	if commitStatus == http.StatusOK && patchStatus == http.StatusOK && rs.Mode != "before-commit" {
+		w.run.Count("patch_race_late_bytes_acknowledged_after_successful_commit", 1)
+	}
+	w.observeAll(cs, true)
+	return true
+}
+
 // ---------------------------------------------------------------------------
 // observations
 
@@ -1040,6 +1512,9 @@ func (w *world) observe(cs *caseState, api, who string) {
 	if cs.memMismatch.Load() {
 		origin = "memory-write-through"
 	}
+	if cs.lateWriter.Load() {
+		origin = "upload-fd-written-after-commit"
+	}
 	switch {
 	case bad != "":
 		cs.note("observed-mismatch", api+": "+bad)
@@ -1174,7 +1649,25 @@ func (w *world) runCase(caseID string, spec *caseSpec, sample bool) {
 			mismatches++
 		}
 	}
-	if spec.Pattern == "pair" {
+	if spec.Pattern == "mem-then-disk" || spec.Pattern == "slow-reader" {
+		mismatches = 1
+		ok := false
+		if spec.Pattern == "mem-then-disk" {
+			ok = w.memThenDisk(cs)
+		} else {
+			ok = w.slowReader(cs)
+		}
+		if !ok {
+			inconclusive = true
+		}
+		steps(0)
+	} else if spec.Pattern == "patch-race" {
+		mismatches = 1
+		if !w.patchRace(cs) {
+			inconclusive = true
+		}
+		steps(0)
+	} else if spec.Pattern == "pair" {
 		var wg sync.WaitGroup
 		results := make([]*writeResult, 2)
 		for k := 0; k < 2; k++ {
